@@ -25,7 +25,7 @@ import sympy as sp
 
 from . import AnalysisError
 from .source import SourceModel
-from .symval import (SymObj, ClassVal, PropertyVal, Closure, BoundMethod, ModuleVal, Builtin,
+from .symval import (SymObj, ClassVal, PropertyVal, SuperVal, Closure, BoundMethod, ModuleVal, Builtin,
                      Raised, Phi, Vec, SymRaise, exc_matches, to_expr, merge, _alg, _MISSING)
 
 MAX_DEPTH = 60
@@ -215,6 +215,22 @@ class Interp:
             return v
         if isinstance(obj, ModuleVal):
             return self.module_attr(obj, name)
+        if isinstance(obj, SuperVal):
+            for b in obj.cls.bases:
+                v = b.lookup(name)
+                if v is not _MISSING:
+                    if isinstance(v, Closure):
+                        return BoundMethod(v, obj.selfval)
+                    if isinstance(v, PropertyVal):
+                        return self.call(v.fget, [obj.selfval], {})
+                    if isinstance(v, tuple) and v[0] == "static":
+                        return v[1]
+                    if isinstance(v, tuple) and v[0] == "classmethod":
+                        return BoundMethod(v[1], obj.selfval if isinstance(obj.selfval, ClassVal) else obj.selfval.cls)
+                    return v
+            if name in ("__init__", "__init_subclass__"):
+                return Builtin("object." + name, lambda *a, **k: None)      # object's own
+            raise SymRaise("AttributeError", f"super object has no attribute {name}")
         if isinstance(obj, Phi):
             return merge(obj.cond, self.getattr(obj.a, name), self.getattr(obj.b, name))
         return self.lib.value_attr(self, obj, name)
@@ -292,6 +308,16 @@ class Interp:
         self.module_cache[key] = v
         return v
 
+    def bound(self, qual, args, kwargs):
+        """{parameter name: value} for a call of the package function *qual* (however the caller spelled the arguments)"""
+        f = self.src.funcs.get(qual)
+        if f is None:
+            raise AnalysisError(f"function {qual} not found")
+        names = [p.arg for p in f.node.args.posonlyargs + f.node.args.args]
+        out = dict(zip(names, args))
+        out.update(kwargs)
+        return out
+
     # ------------------------------------------------------------------- calls
     def call(self, fn, args, kwargs, where=None):
         if isinstance(fn, BoundMethod):
@@ -311,6 +337,8 @@ class Interp:
             return self.call_closure(fn, args, kwargs)
         if isinstance(fn, Phi):
             return merge(fn.cond, self.call(fn.a, args, kwargs), self.call(fn.b, args, kwargs))
+        if isinstance(fn, self.lib.NTupleClass):
+            return fn.make(list(args), dict(kwargs))
         if callable(fn):
             return fn(*args, **kwargs)
         raise AnalysisError(f"call of non-callable {fn!r}")
@@ -351,6 +379,8 @@ class Interp:
         node = fn.node
         frame = Frame(self, fn.module, fn.qual, parent=fn.frame, cls=fn.cls)
         self.bind_params(node.args, args, kwargs, frame, fn)
+        if fn.cls is not None and args:
+            frame.vars["$self"] = args[0]
         self.calls.append(fn.qual)
         self.depth += 1
         try:
@@ -559,7 +589,10 @@ class Interp:
             if isinstance(st.value, ast.Constant):
                 return True
             if isinstance(st.value, (ast.Yield,)):
-                frame.lookup("$yield").append(self.eval(st.value.value, frame))
+                frame.lookup("$yield").append(self.eval(st.value.value, frame) if st.value.value is not None else None)
+                return True
+            if isinstance(st.value, ast.YieldFrom):
+                frame.lookup("$yield").extend(self.lib.iterate(self, self.eval(st.value.value, frame)))
                 return True
             self.eval(st.value, frame)
             return True
@@ -824,6 +857,19 @@ class Interp:
             frame.vars[target.id] = value
         elif isinstance(target, (ast.Tuple, ast.List)):
             vals = self.lib.iterate(self, value)
+            stars = [i for i, t in enumerate(target.elts) if isinstance(t, ast.Starred)]
+            if stars:
+                if len(stars) > 1 or len(vals) < len(target.elts) - 1:
+                    raise SymRaise("ValueError", "unpack arity")
+                i = stars[0]
+                after = len(target.elts) - i - 1
+                mid = vals[i:len(vals) - after]
+                for t, v in zip(target.elts[:i], vals[:i]):
+                    self.assign(t, v, frame)
+                self.assign(target.elts[i].value, list(mid), frame)
+                for t, v in zip(target.elts[i + 1:], vals[len(vals) - after:]):
+                    self.assign(t, v, frame)
+                return
             if len(vals) != len(target.elts):
                 raise SymRaise("ValueError", "unpack arity")
             for t, v in zip(target.elts, vals):
@@ -1028,6 +1074,18 @@ class Interp:
         return self.lib.subscript(self, base, key)
 
     def e_Call(self, n, f):
+        if isinstance(n.func, ast.Name) and n.func.id == "super" and f.lookup("super") is _MISSING:
+            if n.args:
+                a = self._elts(n.args, f)
+                if len(a) != 2 or not isinstance(a[0], ClassVal):
+                    raise AnalysisError("super(...) form not modelled")
+                return SuperVal(a[0], a[1])
+            fn_frame = f
+            while fn_frame is not None and fn_frame.cls is None:
+                fn_frame = fn_frame.parent
+            if fn_frame is None or "$self" not in fn_frame.vars:
+                raise AnalysisError(f"super() outside a method ({f.qual})")
+            return SuperVal(fn_frame.cls, fn_frame.vars["$self"])
         fn = self.eval(n.func, f)
         if isinstance(fn, Builtin) and fn.name == "eval":
             # eval of a *concrete* string: parsed and evaluated in the calling scope by this interpreter
